@@ -10,6 +10,7 @@ import (
 	"encoding/json"
 	"fmt"
 	"hash"
+	"io"
 	"hash/crc32"
 
 	"github.com/pion/stun/v3/zzverif/hmacx"
@@ -180,6 +181,34 @@ type c18Case struct {
 	Prefix []int `json:"prefix"`
 	// concurrent scenario instead of a history
 	Threads int `json:"threads,omitempty"`
+	// how "write" hands the bytes over: 0 Write, 1 io.Copy from a reader that returns its last bytes together with
+	// io.EOF, 2 io.Copy from a reader that returns them in two halves and then (0, io.EOF). A hash.Hash is an io.Writer
+	// and callers stream into it; whatever fast path io.Copy finds on the object must hash the same bytes.
+	Feed int `json:"feed,omitempty"`
+}
+
+type c18Feeder struct {
+	d    []byte
+	mode int
+	step int
+}
+
+func (f *c18Feeder) Read(p []byte) (int, error) {
+	f.step++
+	if f.mode == 1 {
+		if f.step > 1 {
+			return 0, io.EOF
+		}
+		return copy(p, f.d), io.EOF
+	}
+	half := len(f.d) / 2
+	switch f.step {
+	case 1:
+		return copy(p, f.d[:half]), nil
+	case 2:
+		return copy(p, f.d[half:]), nil
+	}
+	return 0, io.EOF
 }
 
 type liveHMAC struct {
@@ -233,7 +262,11 @@ func c18Exec(k c18Case) (*sched.Result, []explore.Finding, string) {
 				}
 			case "write":
 				c := c18Chunk(op.Arg)
-				s.h.Write(c)
+				if k.Feed == 0 {
+					s.h.Write(c)
+				} else if n, err := io.Copy(s.h, &c18Feeder{d: c, mode: k.Feed}); err != nil || n != int64(len(c)) {
+					finds = append(finds, explore.Finding{Key: "copy-count", Detail: fmt.Sprintf("step %d %v: io.Copy into the HMAC returned (%d, %v) for %d bytes", i, op, n, err, len(c))})
+				}
 				s.written = append(s.written, c...)
 			case "sum":
 				prefix := []byte{0xAA, 0xBB}
@@ -530,7 +563,9 @@ func init() {
 			rec = func() {
 				if len(ops) > 0 && ops[len(ops)-1].Op == "sum" {
 					c.DistinctByConstruction++
-					c18Explore(c, c18Case{SHA256: item%2 == 0, Ops: append([]hop(nil), ops...)}, 0)
+					for feed := 0; feed < 3; feed++ {
+						c18Explore(c, c18Case{SHA256: item%2 == 0, Ops: append([]hop(nil), ops...), Feed: feed}, 0)
+					}
 				}
 				if len(ops) == depth {
 					return
